@@ -237,6 +237,9 @@ impl BuildSystem {
             _ => return Err("Invalid validation library. Use 'zod' or 'none'".into()),
         };
 
+        // Invalidate the cache before touching the output: it is re-created after the last write
+        GenerationCache::invalidate(&config.output_path)?;
+
         let mut generator = create_generator(validation);
         let generated_files = generator.generate_models(
             &commands,
